@@ -13,12 +13,25 @@ import (
 	"github.com/avos-io/goat/types"
 )
 
+// JoinMD merges mds in order. Keys are compared the way the receiver reads
+// them - lower-cased - so the values of a key keep the order in which they were
+// set, however its spelling varied from one call to the next.
+func JoinMD(mds ...metadata.MD) metadata.MD {
+	out := metadata.MD{}
+	for _, md := range mds {
+		for k, vs := range md {
+			lk := strings.ToLower(k)
+			out[lk] = append(out[lk], vs...)
+		}
+	}
+	return out
+}
+
 func ToKeyValue(mds ...metadata.MD) []*goatorepo.KeyValue {
 	h := []*goatorepo.KeyValue{}
-	for k, vs := range metadata.Join(mds...) {
-		lowerK := strings.ToLower(k)
+	for k, vs := range JoinMD(mds...) {
 		// binary headers must be base-64-encoded
-		isBin := strings.HasSuffix(lowerK, "-bin")
+		isBin := strings.HasSuffix(k, "-bin")
 		for _, v := range vs {
 			if isBin {
 				v = base64.URLEncoding.EncodeToString([]byte(v))
